@@ -23,15 +23,24 @@ func analyseExistsLoop(c *Ctx, fn *ssa.Function) *existsShape {
 	sh := &existsShape{Pos: fn.Pos()}
 	var hdr *ssa.BasicBlock
 	nh := 0
+	// counted: for i := 0; i < len(L); i++ -- the index phi of such a loop
+	var countedIdx *ssa.Phi
 	for _, b := range fn.Blocks {
 		if b.Comment == "rangeindex.loop" {
 			hdr = b
 			nh++
 		}
+		if b.Comment == "for.loop" {
+			if phi := countedLoopIndex(b); phi != nil {
+				hdr = b
+				countedIdx = phi
+				nh++
+			}
+		}
 	}
 	if nh == 0 {
 		// the standard library's own exists-loop: return slices.Contains(list, param)
-		var found *ssa.Call
+		var found, indexOf *ssa.Call
 		nCalls := 0
 		allInstrs(fn, func(in ssa.Instruction) {
 			if call, ok := in.(*ssa.Call); ok {
@@ -39,6 +48,15 @@ func analyseExistsLoop(c *Ctx, fn *ssa.Function) *existsShape {
 				if o := CalleeObj(call); o != nil && o.Pkg() != nil && o.Pkg().Path() == "slices" && o.Name() == "Contains" && len(call.Call.Args) == 2 {
 					if _, isP := stripConv(call.Call.Args[1]).(*ssa.Parameter); isP {
 						found = call
+					}
+				}
+				// index-of forms: bytes.IndexByte(list, param) / slices.Index(list, param) compared with -1 / 0 below
+				if o := CalleeObj(call); o != nil && o.Pkg() != nil && len(call.Call.Args) == 2 &&
+					((o.Pkg().Path() == "bytes" && o.Name() == "IndexByte") || (o.Pkg().Path() == "slices" && o.Name() == "Index")) {
+					_, isL := stripConv(call.Call.Args[0]).(*ssa.Parameter)
+					_, isP := stripConv(call.Call.Args[1]).(*ssa.Parameter)
+					if isL && isP {
+						indexOf = call
 					}
 				}
 			}
@@ -56,6 +74,30 @@ func analyseExistsLoop(c *Ctx, fn *ssa.Function) *existsShape {
 				return sh
 			}
 		}
+		if indexOf != nil && nCalls == 1 && len(fn.Blocks) == 1 {
+			// return idx >= 0 | idx != -1 | idx > -1
+			okCmp := false
+			allInstrs(fn, func(in ssa.Instruction) {
+				ret, ok := in.(*ssa.Return)
+				if !ok || len(ret.Results) != 1 {
+					return
+				}
+				bo, ok := ret.Results[0].(*ssa.BinOp)
+				if !ok || bo.X != ssa.Value(indexOf) {
+					return
+				}
+				k, isC := constInt(bo.Y)
+				if !isC {
+					return
+				}
+				okCmp = (bo.Op == token.GEQ && k == 0) || (bo.Op == token.NEQ && k == -1) || (bo.Op == token.GTR && k == -1)
+			})
+			if okCmp {
+				sh.Kind = "eq(elem,param)"
+				sh.Pos = indexOf.Pos()
+				return sh
+			}
+		}
 	}
 	if nh != 1 {
 		sh.Problems = append(sh.Problems, fmt.Sprintf("%d range loops (exactly one expected)", nh))
@@ -70,7 +112,13 @@ func analyseExistsLoop(c *Ctx, fn *ssa.Function) *existsShape {
 			return false
 		}
 		ia, ok := u.X.(*ssa.IndexAddr)
-		return ok && loop[ia.Block()] && rangeHeader(ia.Index) == hdr
+		if !ok || !loop[ia.Block()] {
+			return false
+		}
+		if countedIdx != nil {
+			return ia.Index == ssa.Value(countedIdx)
+		}
+		return rangeHeader(ia.Index) == hdr
 	}
 	isParam := func(v ssa.Value) bool {
 		v = stripConv(v)
@@ -124,6 +172,29 @@ func analyseExistsLoop(c *Ctx, fn *ssa.Function) *existsShape {
 		sh.Problems = append(sh.Problems, "no test relating the range element to a parameter found")
 		return sh
 	}
+	// what is returned on a match and on exhaustion
+	{
+		inner, neg := unwrapNot(ifCond(predIf.Block()))
+		if bo, ok := inner.(*ssa.BinOp); ok && bo.Op == token.NEQ {
+			neg = !neg
+		}
+		hitEdge := 0
+		if neg {
+			hitEdge = 1
+		}
+		hit := existsResult(predIf.Block(), predIf.Block().Succs[hitEdge], isElem)
+		missSucc := hdr.Succs[1]
+		if loop[missSucc] && len(hdr.Succs) == 2 {
+			missSucc = hdr.Succs[0]
+		}
+		miss := existsResult(hdr, missSucc, isElem)
+		if hit != "true" && hit != "elem" {
+			sh.Problems = append(sh.Problems, "on a matching element the helper returns "+hit+" (true / the element expected)")
+		}
+		if miss != "false" && miss != `""` {
+			sh.Problems = append(sh.Problems, "when no element matches the helper returns "+miss+" (false / the empty string expected)")
+		}
+	}
 	// exits
 	for b := range loop {
 		for si, s := range b.Succs {
@@ -170,4 +241,82 @@ func checkExistsHelper(c *Ctx, r *Report, rule string, fn *ssa.Function, want, m
 	} else {
 		r.Bad(rule, construct, c.Pos(sh.Pos), strings.Join(probs, "; "))
 	}
+}
+
+// countedLoopIndex: hdr is the condition block of `for i := 0; i < len(L); i++`; returns the phi of i.
+func countedLoopIndex(hdr *ssa.BasicBlock) *ssa.Phi {
+	cond := ifCond(hdr)
+	bo, ok := cond.(*ssa.BinOp)
+	if !ok || bo.Op != token.LSS {
+		return nil
+	}
+	phi, ok := bo.X.(*ssa.Phi)
+	if !ok || phi.Block() != hdr || len(phi.Edges) != 2 {
+		return nil
+	}
+	if call, ok := bo.Y.(*ssa.Call); !ok {
+		return nil
+	} else if b, ok := call.Call.Value.(*ssa.Builtin); !ok || b.Name() != "len" {
+		return nil
+	}
+	nInit, nStep := 0, 0
+	for i, e := range phi.Edges {
+		back := hdr.Dominates(hdr.Preds[i])
+		if k, isC := constInt(e); isC && k == 0 && !back {
+			nInit++
+			continue
+		}
+		if step, ok := e.(*ssa.BinOp); ok && back && step.Op == token.ADD && step.X == ssa.Value(phi) {
+			if k, isC := constInt(step.Y); isC && k == 1 {
+				nStep++
+				continue
+			}
+		}
+		return nil
+	}
+	if nInit == 1 && nStep == 1 {
+		return phi
+	}
+	return nil
+}
+
+// existsResult: what the function returns when control leaves the loop along from->to: "true", "false", `""`,
+// "elem" (the element under test) or a description of anything else.
+func existsResult(from, to *ssa.BasicBlock, isElem func(ssa.Value) bool) string {
+	for i := 0; i < 6; i++ {
+		last := to.Instrs[len(to.Instrs)-1]
+		switch x := last.(type) {
+		case *ssa.Return:
+			if len(x.Results) != 1 {
+				return "several values"
+			}
+			v := x.Results[0]
+			if phi, ok := v.(*ssa.Phi); ok && phi.Block() == to {
+				v = nil
+				for pi, p := range to.Preds {
+					if p == from {
+						v = phi.Edges[pi]
+					}
+				}
+				if v == nil {
+					return "an unresolved value"
+				}
+			}
+			if b, ok := constBool(v); ok {
+				return fmt.Sprint(b)
+			}
+			if s, ok := constString(v); ok {
+				return fmt.Sprintf("%q", s)
+			}
+			if isElem(v) {
+				return "elem"
+			}
+			return "a value that is neither constant nor the element"
+		case *ssa.Jump:
+			from, to = to, to.Succs[0]
+		default:
+			return "a value decided by further tests"
+		}
+	}
+	return "an unresolved value"
 }
